@@ -1091,6 +1091,10 @@ func (f *fn) retStmt(o *w, rs *ast.ReturnStmt) {
 		if len(rs.Results) != 1 {
 			fail(rs.Pos(), "return arity")
 		}
+		if isNilIdent(rs.Results[0]) && strings.HasPrefix(f.resLean, "(List ") {
+			o.line("%s", wrap("([] : "+f.resLean+")")) // a nil slice result: empty
+			break
+		}
 		r := f.expr(rs.Results[0])
 		o.line("%s", wrap(r.val()))
 	case "valueErr":
@@ -1213,8 +1217,64 @@ func (f *fn) stmtList(o *w, list []ast.Stmt) {
 				}
 			}
 		}
+		// _, err := call(); return err == nil   (or != nil)    ==>   return (isOk call)
+		//    the call is only probed for failure; a panic of the callee stays a panic
+		if as, ok := st.(*ast.AssignStmt); ok && len(as.Rhs) == 1 && len(as.Lhs) >= 1 && i+1 < len(list) && f.resKind == "value" {
+			if e, neg, ok := probeOf(as, list[i+1]); ok {
+				r := f.expr(e)
+				if r.pure {
+					fail(as.Pos(), "error-returning call translated as pure")
+				}
+				code := "(← isOk " + r.mon() + ")"
+				if neg {
+					code = "(!" + code + ")"
+				}
+				if f.loop != nil {
+					o.line("return (.ret %s)", code)
+				} else {
+					o.line("return %s", code)
+				}
+				i++
+				continue
+			}
+		}
 		f.stmt(o, st)
 	}
+}
+
+// probeOf recognises `_, …, err := CALL` followed by `return err == nil` (neg = false) or `return err != nil` (neg = true).
+func probeOf(as *ast.AssignStmt, next ast.Stmt) (call ast.Expr, neg bool, ok bool) {
+	if as.Tok != token.DEFINE {
+		return nil, false, false
+	}
+	for i, l := range as.Lhs {
+		id, isId := l.(*ast.Ident)
+		if !isId {
+			return nil, false, false
+		}
+		if i < len(as.Lhs)-1 && id.Name != "_" {
+			return nil, false, false
+		}
+		if i == len(as.Lhs)-1 && id.Name != "err" {
+			return nil, false, false
+		}
+	}
+	if _, isCall := as.Rhs[0].(*ast.CallExpr); !isCall {
+		return nil, false, false
+	}
+	rs, isRet := next.(*ast.ReturnStmt)
+	if !isRet || len(rs.Results) != 1 {
+		return nil, false, false
+	}
+	be, isBin := rs.Results[0].(*ast.BinaryExpr)
+	if !isBin || (be.Op != token.EQL && be.Op != token.NEQ) {
+		return nil, false, false
+	}
+	x, okx := be.X.(*ast.Ident)
+	if !okx || x.Name != "err" || !isNilIdent(be.Y) {
+		return nil, false, false
+	}
+	return as.Rhs[0], be.Op == token.NEQ, true
 }
 
 // replaces reports whether `st` is `if err != nil { return [zero,] E }` with E an error expression that does not mention err,
